@@ -58,42 +58,6 @@ func (v *markerVisitor) Enter(n ast.Node) (ast.Node, bool) {
 }
 func (v *markerVisitor) Leave(n ast.Node) (ast.Node, bool) { return n, true }
 
-// neutralise returns text with the constructs of the given classes made
-// harmless for a lexer that does not know them, keeping every byte offset:
-//
-//	esc: every backslash pair inside a string literal becomes "xx"
-//	bq:  ? ' " inside quoted identifiers become x
-//	cm:  ? ' " inside comments become x
-//
-// The reference lexing of the result is the same as that of the input.
-func neutralise(text string, segs []sqltok.Seg, esc, bq, cm bool) (string, bool) {
-	b := []byte(text)
-	changed := false
-	for _, s := range segs {
-		switch {
-		case (s.K == sqltok.SQ || s.K == sqltok.DQ) && esc:
-			for i := s.Start + 1; i < s.End-1; i++ {
-				if b[i] == '\\' {
-					b[i] = 'x'
-					if i+1 < s.End-1 {
-						b[i+1] = 'x'
-					}
-					i++
-					changed = true
-				}
-			}
-		case s.K == sqltok.BQ && bq, sqltok.IsComment(s.K) && cm:
-			for i := s.Start; i < s.End; i++ {
-				if b[i] == '?' || b[i] == '\'' || b[i] == '"' {
-					b[i] = 'x'
-					changed = true
-				}
-			}
-		}
-	}
-	return string(b), changed
-}
-
 func calcMatches(text string, want []int) (bool, string) {
 	var count int
 	var offsets []int
@@ -203,35 +167,8 @@ func checkCase(c paramCase) (o pbt.Outcome) {
 		o.Violation = detail
 		return
 	}
-	// Classification: the failure belongs to a known root cause only if making
-	// exactly that construct harmless (same offsets, same expected markers)
-	// makes CalcParams right.
-	type cls struct {
-		id          string
-		esc, bq, cm bool
-	}
-	for _, k := range []cls{{"C14-F1", true, false, false}, {"C14-F2", false, true, false}, {"C14-F3", false, false, true}} {
-		nt, changed := neutralise(text, segs, k.esc, k.bq, k.cm)
-		if !changed {
-			continue
-		}
-		if ok2, _ := calcMatches(nt, want); ok2 {
-			o.Known, o.KnownWhat = k.id, detail
-			return
-		}
-	}
-	// several root causes in one text: all of them neutralised must repair it
-	if nt, changed := neutralise(text, segs, true, true, true); changed {
-		if ok2, _ := calcMatches(nt, want); ok2 {
-			for _, k := range []cls{{"C14-F1", true, false, false}, {"C14-F2", false, true, false}, {"C14-F3", false, false, true}} {
-				if _, ch := neutralise(text, segs, k.esc, k.bq, k.cm); ch {
-					o.Known, o.KnownWhat = k.id, detail
-					o.Labels = append(o.Labels, "several_root_causes")
-					return
-				}
-			}
-		}
-	}
+	// (C14-F1..F3, the backslash / backquote / comment defects of the old CalcParams, are
+	// fixed: any such failure is a plain violation again)
 	o.Violation = detail
 	return
 }
